@@ -21,7 +21,8 @@ class LdmExceptionReturn(Opcode):
                   processor.registers.current_instr_set() == InstrSet.THUMB_EE):
                 print('unpredictable')
             else:
-                length = (4 * bit_count(self.registers, 1, 16)) + 4
+                # self.registers includes bit 15 (the PC), which this encoding always sets
+                length = 4 * bit_count(self.registers, 1, 16)
                 address = processor.registers.get(self.n) if self.increment else sub(processor.registers.get(self.n),
                                                                                      length, 32)
                 if self.word_higher:
